@@ -110,6 +110,17 @@ def fn(a, tier):
                     async for ev in stream:
                         got[k].append(ev)
 
+            # one stream over the SAME attribute of both instances (multi-signal API), opened first,
+            # while neither channel has any other subscriber
+            both = []
+
+            async def listen_both(*, task_status):
+                async with stream_events([bound[(0, attrs[0])], bound[(1, attrs[0])]]) as stream:
+                    task_status.started()
+                    async for ev in stream:
+                        both.append(ev)
+
+            await tg.start(listen_both)
             for k in keys:
                 await tg.start(listen, k)
             sent = {}
@@ -129,6 +140,9 @@ def fn(a, tier):
                     errors.append(("delivery-matrix", f"{k} received {len(got[k])} events"))
                 elif sent[k].source is not insts[k[0]] or sent[k].topic != k[1]:
                     errors.append(("stamp", f"{k}: source={sent[k].source!r} topic={sent[k].topic!r}"))
+            exp_both = [sent[(0, attrs[0])], sent[(1, attrs[0])]]
+            if len(both) != 2 or any(x is not y for x, y in zip(sorted(both, key=id), sorted(exp_both, key=id))):
+                errors.append(("multi-signal-stream-over-two-instances", f"received {len(both)} of 2 events"))
             # class-level use
             decl = getattr(cls, attrs[0])
             for what in ("dispatch", "stream", "wait"):
@@ -181,3 +195,99 @@ H = Harness(
 )
 
 HARNESSES = [H]
+
+
+# ------------------------------------------------------------------------------ G-reuse
+def reuse_params(tier):
+    return [P("kind", 0, 1), P("touch1", 0, 1)]
+
+
+@guard
+def reuse_fn(a, tier):
+    """Three generations of owners at one memory address: bound signals of a dead owner must
+    never be inherited by a later object that happens to get the same id()."""
+    kind, touch1 = pick(a["kind"], 2), pick(a["touch1"], 2)
+    cls = [Base, Sized][kind]
+    out = {}
+
+    def new_at(addr, keep):
+        for _ in range(300):
+            o = cls()
+            if addr is None or id(o) == addr:
+                return o
+            keep.append(o)
+        return None
+
+    async def main():
+        keep = []
+        o1 = cls()
+        addr = id(o1)
+        if touch1:
+            o1.a
+        del o1
+        gc.collect()
+        o2 = new_at(addr, keep)
+        if o2 is None:
+            out["skipped"] = True
+            return
+        sig2 = o2.a
+        got2 = []
+        async with anyio.create_task_group() as tg:
+            async def listen2(*, task_status):
+                async with sig2.stream_events() as stream:
+                    task_status.started()
+                    async for ev in stream:
+                        got2.append(ev)
+
+            await tg.start(listen2)
+            del o2
+            keep.clear()
+            gc.collect()
+            o3 = new_at(addr, keep)
+            if o3 is None:
+                out["skipped"] = True
+                tg.cancel_scope.cancel()
+                return
+            sig3 = o3.a
+            out["fresh"] = sig3 is not sig2
+            ev = EA()
+            got3 = []
+
+            async def listen3(*, task_status):
+                async with sig3.stream_events() as stream:
+                    task_status.started()
+                    async for e in stream:
+                        got3.append(e)
+
+            await tg.start(listen3)
+            sig3.dispatch(ev)
+            await anyio.wait_all_tasks_blocked()
+            out["leak"] = len(got2)
+            out["own"] = len(got3) == 1 and got3[0] is ev
+            out["source"] = ev.source is o3
+            tg.cancel_scope.cancel()
+
+    _, exc, _k = run(main)
+    summary = {"owner": ["plain class", "falsy instances"][kind], "first_generation_touched_its_signal": bool(touch1)}
+    if exc is not None:
+        return FAIL(f"reuse:raised:{type(exc).__name__}", repr(exc), summary)
+    if out.get("skipped"):
+        return OK(summary, nontrivial=False)  # the allocator did not hand the address out again
+    if not out["fresh"] or out["leak"] or not out["own"] or not out["source"]:
+        return FAIL("reuse:bound-signal-of-a-dead-owner-inherited-by-a-new-object-at-the-same-address", f"{out}", summary)
+    return OK(summary, True)
+
+
+REUSE = Harness(
+    prop="C11",
+    name="G-reuse",
+    fn=reuse_fn,
+    params=reuse_params,
+    cube=lambda tier: 0,
+    title="three generations of owner objects recycled at one memory address",
+    bound_text=lambda tier: "owner kind x first generation touched its signal or not; gen 2 binds and is listened to, then dies; gen 3 at the same id() binds and dispatches",
+    oracle="generation 3 gets a fresh bound signal, its event reaches only its own listener and is stamped with generation 3 as source",
+    outside="relies on CPython handing the freed address out again (paths where it does not are counted as trivial)",
+    stubs=STUBS_COMMON,
+)
+HARNESSES.append(REUSE)
